@@ -159,6 +159,13 @@ std::array<std::uint8_t, 32> Shamir::combine(const std::vector<ShamirShare>& sha
     static const auto log_table = build_log_table(exp_table);
 
     std::vector<ShamirShare> subset(shares.begin(), shares.begin() + threshold);
+    for (std::size_t i = 0; i < subset.size(); ++i) {
+        for (std::size_t j = i + 1; j < subset.size(); ++j) {
+            if (subset[i].index == subset[j].index) {
+                throw std::invalid_argument("duplicate share index");
+            }
+        }
+    }
     return interpolate(subset, exp_table, log_table);
 }
 
